@@ -392,7 +392,7 @@ var c08Fixed = []string{
 	"geom 1 1 3 3 PG 1 | 0 0 4 0 4 4 2.1 4 2.1 3.5 3.5 3.5 3.5 0.5 0.5 0.5 0.5 3.5 1.9 3.5 1.9 4 0 4 0 0",
 	// rectangle sharing the right edge of the box
 	"ring 1 1 3 3 | 3 1 5 1 5 3 3 3 3 1 | 2 2",
-	// empty Bound arguments
+	// empty Bound arguments (former finding C08-empty-bound-returns-box, fixed in orb: must clip to nil)
 	"geom -2 -2 2 2 B 1 1 -1 -1",
 	"geom 1 1 4 4 B 3 2 2 3",
 	// a hole that covers the box
